@@ -18,19 +18,19 @@ REG = {
         "modules": ["VProofs.Props.C02", "VProofs.Props.Pandas"],
         "theorems": thms("C02", ["C02_order_indep", "C02_mutex_generic_pandas", "dtype_partition", "contains_dtypePred",
                                  "C02_mutex_object_pandas", "C02_mutex_string_pandas", "C02_witness_F10"])
-                    + ["V.Pd.pandas_WF", "V.PandasProps.C02_pandas"],
+                    + ["V.Pd.pandas_WF", "V.Pd.outputs_good", "V.Pd.goodB_sound", "V.PandasProps.C02_pandas"],
         "runners": ["pandas"],
         "relevant": ["contains", "guard", "infer-path", "infer-outcome", "detect-path", "relation-missing"],
     },
     "C03": {
         "modules": ["VProofs.Props.C03", "VProofs.Props.Pandas"],
         "theorems": thms("C03", ["C03_infer_sound", "C03_lands_step", "C03_lands_pandas"])
-                    + ["V.Pd.pandas_WF", "V.Pd.built_typeset", "V.PandasProps.C03_pandas", "V.PandasProps.C03_pandas_model"],
+                    + ["V.Pd.pandas_WF", "V.Pd.outputs_good", "V.Pd.goodB_sound", "V.Pd.built_typeset", "V.PandasProps.C03_pandas", "V.PandasProps.C03_pandas_model"],
         "runners": ["pandas", "numpy", "list"],
     },
     "C04": {
         "modules": ["VProofs.Props.C04", "VProofs.Props.Pandas"],
-        "theorems": thms("C04", ["C04_fixpoint"]) + ["V.Pd.pandas_WF", "V.PandasProps.C04_pandas"],
+        "theorems": thms("C04", ["C04_fixpoint"]) + ["V.Pd.pandas_WF", "V.Pd.outputs_good", "V.Pd.goodB_sound", "V.PandasProps.C04_pandas"],
         "runners": ["pandas", "numpy", "list"],
     },
     "C15": {
@@ -42,7 +42,7 @@ REG = {
     "C16": {
         "modules": ["VProofs.Props.C16", "VProofs.Props.Pandas"],
         "theorems": thms("C16", ["C16_chain", "C16_nested_pandas", "C16_witness_F26", "C16_witness_F27", "on_path_of_contains"])
-                    + ["V.Pd.pandas_WF", "V.PandasProps.C16_pandas"],
+                    + ["V.Pd.pandas_WF", "V.Pd.outputs_good", "V.Pd.goodB_sound", "V.PandasProps.C16_pandas"],
         "runners": ["pandas"],
         "relevant": ["contains", "detect-path"],
     },
